@@ -34,7 +34,7 @@ FAMS = ["specialized", "specialized", "basic", "uniform", "layered", "layered-lo
 
 def gen_cases(tier, seed):
     rng = rng_for(PROPERTY, seed)
-    n = 200 if tier == "quick" else 6000
+    n = 200 if tier == "quick" else 3000
     out = []
     for i in range(n):
         fam = FAMS[i % len(FAMS)]
@@ -61,7 +61,8 @@ def gen_cases(tier, seed):
         rho = float(10 ** rng.uniform(1, 3.2))
         ph = float(rng.uniform(0, 2 * np.pi))
         b = [a[0] + rho * np.cos(ph), a[1] + rho * np.sin(ph), float(rng.uniform(max(zlo, -400), -1))]
-        c.update({"from": a, "to": b, "N": int(rng.choice([8, 16, 33, 128, 257, 1024, 4096] if tier == "thorough" else [8, 16, 33, 128, 257])),
+        big = [8, 16, 33, 128, 257, 1024, 4096] if tier == "thorough" and fam != "basic" else [8, 16, 33, 128, 257]     # the numeric tracer integrates per frequency
+        c.update({"from": a, "to": b, "N": int(rng.choice(big)),
                   "dt": float(rng.choice([1e-11, 1e-10, 1e-9, 3e-9, 1e-8])), "t0": float(rng.uniform(-1e-7, 1e-7)),
                   "values": str(rng.choice(["noise", "pulse", "chirp"])), "pol": str(rng.choice(["generic", "non-unit", "along-ray", "along-z"])),
                   "interp": [None, 0.01, 0.1, 0.37, 1.5][int(rng.integers(0, 5))]})
